@@ -10,12 +10,12 @@ VARIABLE case
 Nat0(S) == {x \in S : x >= 0}
 Around(x) == Nat0({x - 1, x, x + 1})
 
-Ns == IF Tier = "quick" THEN {0, 1, 2, 3, 5, 8, 13, 20} ELSE 0..20
+Ns == IF Tier = "quick" THEN {0, 1, 2, 3, 5, 8, 13, 20} ELSE {0, 1, 2, 3, 4, 5, 6, 8, 10, 13, 16, 20}
 Ks == IF Tier = "quick" THEN {<<4, 16>>, <<10, 10>>, <<64, 4>>} ELSE {<<4, 16>>, <<10, 10>>, <<64, 4>>, <<1, 1>>, <<7, 3>>, <<40, 160>>}
-Ts == IF Tier = "quick" THEN {30, 70, 100, 120} ELSE {1, 10, 30, 45, 70, 77, 90, 100, 110, 120}
+Ts == IF Tier = "quick" THEN {30, 70, 100, 120} ELSE {1, 30, 45, 70, 77, 100, 120}
 Reqs(n, k, t) == LET cap == IF n = 0 THEN k ELSE n * k IN
                  {0} \cup Around((t * cap) \div 100) \cup Around(((t + 1) * cap) \div 100) \cup {cap, 2 * cap, 6 * cap}
-                 \cup (IF Tier = "quick" THEN {} ELSE {(j * cap) \div 4 : j \in 1..20} \cup Around((t * cap * 3) \div 100))
+                 \cup (IF Tier = "quick" THEN {} ELSE {(j * cap) \div 4 : j \in 1..10} \cup Around((t * cap * 3) \div 100))
 MemReqs(n, k, t) == LET cap == IF n = 0 THEN k ELSE n * k IN {0, (t * cap) \div 100, ((t * cap) \div 100) + 1, 3 * cap}
 
 DeltaGrid == UNION {UNION {UNION {{[kind |-> "delta", n |-> n, kc |-> K[1], km |-> K[2], t |-> t, rc |-> rc, rm |-> rm, cached |-> ch]
@@ -41,7 +41,7 @@ RECURSIVE SetToSeqC(_)
 SetToSeqC(S) == IF S = {} THEN <<>> ELSE LET x == CHOOSE x \in S : TRUE IN <<x>> \o SetToSeqC(S \ {x})
 \* single pods exhaustively, and bags of about three pods drawn by TLC's seeded sampler (the harness lists each in several orders)
 PodsGrid == {[kind |-> "pods", pods |-> <<p>>] : p \in PodShapes}
-            \cup {[kind |-> "pods", pods |-> SetToSeqC(S)] : S \in {T \in RandomSetOfSubsets(IF Tier = "quick" THEN 600 ELSE 10000, 2, PodShapes) : Cardinality(T) \in 2..3}}
+            \cup {[kind |-> "pods", pods |-> SetToSeqC(S)] : S \in {T \in RandomSetOfSubsets(IF Tier = "quick" THEN 600 ELSE 2500, 2, PodShapes) : Cardinality(T) \in 2..3}}
 
 \* ---- node allocatables
 NVals == {<<-1, -1>>, <<0, 0>>, <<1000, 536870912>>, <<4000, 400000000>>, <<500, 134217728>>, <<64000, 1024>>}
